@@ -3,7 +3,7 @@ Helper lemmas for C12: the two transient flags (flatten mode, `?`-leaf label) ar
 check, what they were before or cleared; at rest they stay at rest through every program.
 Core Lean only.
 -/
-import JaxVerif.Spec.Calls
+import JaxVerif.Lemmas.CallStep
 
 namespace JV
 
@@ -361,6 +361,83 @@ theorem problemArg_rest (sk : Skel) (hs : sk.Good) : ∀ (ps : List Param) (st :
     | F => exact h1
     | ANN => exact h1
     | EXC e => cases e <;> exact h1
+
+theorem onTop_check_rest (sk : Skel) (hs : sk.Good) (l : LType) (x : Obj) (st : TState)
+    (h : Rest st) : Rest (onTop st (checkL sk l x)).1 :=
+  onTop_rest st (checkL sk l x) (checkL_le sk hs l x) h
+
+theorem pushFrame_rest (m : Memo) (st : TState) (h : Rest st) : Rest (pushFrame m st) := h
+
+theorem popStack_rest (st : TState) (h : Rest st) : Rest (popStack st) := h
+
+theorem popAfter_rest (b : Bool) (o : CallOutcome) (st : TState) (h : Rest st) :
+    Rest (popAfter b o st) := by
+  unfold popAfter
+  split <;> exact h
+
+theorem newRetFail_rest (w : WrapSkel) (pre : List Obs) (v : Verdict) (st : TState) (h : Rest st) :
+    Rest (newRetFail w pre v st).1 := by
+  unfold newRetFail
+  split <;> exact popAfter_rest _ _ _ h
+
+theorem newParamFail_rest (sk : Skel) (hs : sk.Good) (w : WrapSkel) (ps : List Param) (st : TState)
+    (h : Rest st) : Rest (newParamFail sk w ps st).1 := by
+  unfold newParamFail
+  split <;> exact popAfter_rest _ _ _ (problemArg_rest sk hs ps st h)
+
+/-- one backward step of the proof that a composite of the primitive steps keeps `Rest` -/
+macro "rest_step" hB:term : tactic => `(tactic| first
+  | assumption
+  | apply popAfter_rest
+  | apply popStack_rest
+  | apply pushFrame_rest
+  | apply newRetFail_rest
+  | apply newParamFail_rest
+  | apply checkParams_rest
+  | apply problemArg_rest
+  | apply onTop_check_rest
+  | apply $hB)
+
+theorem callStep_rest (sk : Skel) (hs : sk.Good) (w : WrapSkel) (k : CallKind) (ps : List Param)
+    (ret : Option (LType × Obj)) (bindOk noTc : Bool) (B : TState → TState × List Obs)
+    (hB : ∀ st, Rest st → Rest (B st).1) (e : Exit) (st : TState) (h : Rest st) :
+    Rest (callStep sk w k ps ret bindOk noTc B e st).1 := by
+  unfold callStep
+  repeat' split
+  all_goals repeat rest_step hB
+
+theorem ctxStep_rest (w : WrapSkel) (B : TState → TState × List Obs)
+    (hB : ∀ st, Rest st → Rest (B st).1) (e : Exit) (st : TState) (h : Rest st) :
+    Rest (ctxStep w B e st).1 := by
+  unfold ctxStep
+  dsimp only
+  split
+  all_goals repeat rest_step hB
+
+mutual
+theorem runProg_rest (sk : Skel) (w : WrapSkel) (hs : sk.Good) : ∀ (p : Prog) (st : TState),
+    Rest st → Rest (runProg sk w p st).1
+  | .check l x, st, h => by rw [runProg]; exact onTop_check_rest sk hs l x st h
+  | .print, st, h => by rw [runProg]; exact h
+  | .setDisable b, st, h => by rw [runProg]; exact h
+  | .ctx body e, st, h => by
+    rw [runProg_ctx_eq]
+    exact ctxStep_rest w _ (runProgs_rest' sk w hs body) e st h
+  | .call k ps ret bindOk noTc body e, st, h => by
+    rw [runProg_call_eq]
+    exact callStep_rest sk hs w k ps ret bindOk noTc _ (runProgs_rest' sk w hs body) e st h
+theorem runProgs_rest' (sk : Skel) (w : WrapSkel) (hs : sk.Good) : ∀ (ps : List Prog) (st : TState),
+    Rest st → Rest (runProgs sk w ps st).1
+  | [], st, h => by rw [runProgs]; exact h
+  | p :: ps, st, h => by
+    rw [runProgs]
+    exact runProgs_rest' sk w hs ps _ (runProg_rest sk w hs p st h)
+end
+
+theorem runProgs_rest (sk : Skel) (w : WrapSkel) (hs : sk.Good) (ps : List Prog) (st : TState)
+    (h0 : st.flatten = false ∧ st.tp = none) :
+    (runProgs sk w ps st).1.flatten = false ∧ (runProgs sk w ps st).1.tp = none :=
+  runProgs_rest' sk w hs ps st h0
 
 theorem onTop_pure (sk : Skel) (l : LType) (x : Obj) (st₁ st₂ : TState)
     (hrest : st₁.flatten = false ∧ st₁.tp = none ∧ st₂.flatten = false ∧ st₂.tp = none)
